@@ -449,7 +449,7 @@ def dashes_reach(n: int, k1: str, k2: str, cx: bool, direction: int) -> bool:
 
 
 CONDITIONS = [
-    {'fn': 'single', 'slices': [0, 1, 2, 3], 'quick': 110, 'thorough': 300,
+    {'fn': 'single', 'slices': [0, 1, 2, 3], 'quick': 240, 'thorough': 600,
      'bound': 'one slice per transform: attribute absent/scalar/sequence/'
               'mapping x <= 2 items of 12 kinds each x equal/distinct ids x '
               'value attribute None/"v" x strict; result compared with the '
